@@ -56,6 +56,20 @@ def PfxEnt.matchesPfx (e : PfxEnt) (k : Nat) : Bool :=
   let (a, l) := pfxOf k
   e.plen ≤ l && a / 2 ^ (32 - e.plen) == e.base / 2 ^ (32 - e.plen) && e.lo ≤ l && l ≤ e.hi
 
+/-- the prefix-set clause of `Stmt.matches`: the set's members decide, ANY or INVERT -/
+def pfxCondModel (opt : Nat) (es : List PfxEnt) (k : Nat) : Bool :=
+  if opt = 2 then !es.any (fun e => e.matchesPfx k) else es.any (fun e => e.matchesPfx k)
+
+/-- PrefixCondition.Evaluate as the code has it, INCLUDING the test it makes before anything
+    else: the address family recorded in the PrefixSet object (`setFam`; `none` for a set that was
+    configured, or replaced, EMPTY; the family of the last member for a set emptied by
+    DeleteDefinedSet) against the route's family — a mismatch answers false whatever the option.
+    For a non-empty IPv4 set and IPv4 routes (all the harness generates, see
+    `prefix_condition_family_partial`) it is `pfxCondModel`; for an EMPTY set it depends on how the
+    set became empty: KNOWN FINDING soft-reset!=fresh:emptied-prefix-set-invert. -/
+def pfxCondCode (setFam : Option Nat) (routeFam : Nat) (opt : Nat) (es : List PfxEnt) (k : Nat) : Bool :=
+  if setFam != some routeFam then false else pfxCondModel opt es k
+
 /-- Path.GetAsSeqList: members of AS_SEQUENCE segments, one 0 for every other segment -/
 def asSeqList (segs : List Seg) : List Nat :=
   segs.flatMap (fun s => if s.typ = 2 then s.as else [0])
